@@ -38,12 +38,14 @@ PLAN = {
             {"run": "TestC02_Shipped", "checks": 40},
             {"run": "TestC02_Procs", "checks": 15},
             {"run": "TestC02_Huge", "checks": 5},
+            {"run": "TestC02_ProcsBatch", "checks": 8},
         ],
         "thorough": [
             {"run": "TestC02_Repeat", "checks": 250000, "shards": 12, "timeout": 7200},
             {"run": "TestC02_Shipped", "checks": 1000, "shards": 2, "timeout": 7200},
             {"run": "TestC02_Procs", "checks": 1000, "shards": 2, "timeout": 7200},
             {"run": "TestC02_Huge", "checks": 150, "shards": 2, "timeout": 7200},
+            {"run": "TestC02_ProcsBatch", "checks": 60, "shards": 2, "timeout": 7200},
         ],
     },
     "C03": {
